@@ -101,6 +101,98 @@ def attr_cases(tier: str):
                         yield dict(n=n, es=es, fail={f: "V"}, res=res, mc=2, is_async=is_async, noloc=False, batch=False, ties=0, profile=True)
 
 
+FORMS_SRC = '''
+from tawazi import xn, dag, Resource
+import functools
+
+class Model:
+    @xn
+    def predict(self, v):
+        raise ValueError("boom in predict")
+
+    @xn(resource=Resource.main_thread)
+    def score(self, v):
+        raise ValueError("boom in score")
+
+@xn
+def k0():
+    return 0
+
+@xn
+def ident(v):
+    return v
+
+def _fail(tag, v):
+    raise ValueError("boom in " + tag)
+
+failing_partial = xn(functools.partial(_fail, "partial"))
+failing_lambda = xn(lambda v: 1 // 0)
+model = Model()
+
+@dag(max_concurrency={mc}, is_async={is_async})
+def d(x):
+    a = ident(x)
+    z = k0()
+    r = {expr}
+    return r
+'''
+
+# expression describing the failing node, exception type of the cause
+FORMS = [
+    ("model.predict(a)", "ValueError"),          # decorated method called on an instance
+    ("model.score(a)", "ValueError"),
+    ("a / z", "ZeroDivisionError"),              # operator nodes
+    ("a // z", "ZeroDivisionError"),
+    ("a % z", "ZeroDivisionError"),
+    ("a[5]", "TypeError"),                       # (int is not subscriptable) - indexing is resolved when the consumer runs
+    ("failing_partial(a)", "ValueError"),        # call form of the decorator on objects that cannot take the @ syntax
+    ("failing_lambda(a)", "ZeroDivisionError"),
+]
+
+
+def forms_case(acc, c):
+    """the failing node was declared as a method, an operator on a result, a functools.partial or a lambda: the exception
+    still names the node and points at the line of the describing function that created it"""
+    from tawazi.errors import TawaziBaseException
+
+    from .. import harness as H
+    from ..build import exec_source
+    from ..monitors import V
+    acc.cases += 1
+    for expr, cause_t in FORMS:
+        if expr == "a[5]":
+            continue  # an index is not a node: covered by C01 (reference raises as well)
+        for mc in (1, 2):
+            for is_async in (False, True):
+                src = FORMS_SRC.format(mc=mc, is_async=is_async, expr=expr)
+                ns = exec_source(src)
+                d = ns["d"]
+                line = next(i for i, t in enumerate(src.splitlines(), 1) if t.strip() == f"r = {expr}")
+                if is_async:
+                    async def op():
+                        return await d(7)
+                else:
+                    def op():
+                        return d(7)
+                res = H.run_controlled(op, is_async=is_async)
+                acc.evaluations += 1
+                acc.mark_nontrivial(("forms", expr, mc, is_async))
+                case = dict(c, expr=expr, mc=mc, is_async=is_async)
+                exc = res.exc
+                if res.outcome != "raise":
+                    acc.violation(V("failure_swallowed", f"'{expr}' fails but the call gave {res.outcome} {res.value!r}", form=expr), case, (), res.trace, src)
+                elif not isinstance(exc, TawaziBaseException):
+                    acc.violation(V("bad_exception_type", f"'{expr}': call raised {type(exc).__name__}: {exc!r} instead of a tawazi exception naming the node", form=expr),
+                                  case, (), res.trace, src)
+                else:
+                    want = f" at {ns['__src_file__']}:{line}"
+                    msg = str(exc)
+                    if "ExecNode " not in msg or not msg.endswith(want):
+                        acc.violation(V("wrong_location", f"'{expr}': message {msg!r} does not point at{want}", form=expr), case, (), res.trace, src)
+                    if type(exc.__cause__).__name__ != cause_t:
+                        acc.violation(V("wrong_cause", f"'{expr}': __cause__ is {exc.__cause__!r}, expected a {cause_t}", form=expr), case, (), res.trace, src)
+
+
 def nontrivial(view):
     # a sibling (neither ancestor nor descendant of the failing node) was in flight or ready when the failure was observed
     from ..monitors import failure_observed_at
@@ -118,10 +210,18 @@ def run_shard(tier, k, n, acc):
     its = [cases(tier), early_cases(tier), attr_cases(tier), cross_families(tier)]
     if tier != "quick":
         its.append(foreign_quick_cases("c14"))
-    for c in shard_iter(itertools.chain(*its), k, n, acc):
+    for c in shard_iter(itertools.chain([dict(special="forms")], *its), k, n, acc):
+        if c.get("special") == "forms":
+            forms_case(acc, c)
+            continue
         run_case(acc, c, MONITORS, nontrivial)
 
 
 def replay(v):
+    if v["case"].get("special") == "forms":
+        from ..acc import Acc
+        a = Acc(ID, 0, 1, 600)
+        forms_case(a, dict(special="forms"))
+        return [x for x in a.violations if x["case"].get("expr") == v["case"].get("expr")], None
     res, viols = replay_case(v["case"], MONITORS, v["prefix"])
     return viols, res.trace
